@@ -48,6 +48,7 @@ package service
 // after it returned (the ghost doErr does not exist before).
 //@ func (*InsertServiceV2).fetchLoopIteration [C01]
 //@   check at-most-one-insert: doCalls == old(doCalls) || doCalls == old(doCalls) + 1
+//@   check taken-batch-is-sent: portion != nil ==> doCalls == old(doCalls) + 1
 //@   check outcome: doCalls == old(doCalls) + 1 ==> (forall k int :: 0 <= k && k < len(waiting) ==> settled(waiting[k], doErr))
 //@   check whole-batch: doCalls == old(doCalls) + 1 ==> len(waiting) == len(portion.res) && (forall k int :: 0 <= k && k < len(waiting) ==> waiting[k] == portion.res[k])
 //@   loop 1:
@@ -64,7 +65,7 @@ package service
 
 // Handing the batch over: columns, promises and size are taken together under
 // the lock and the open batch restarts empty.
-//@ func (*InsertServiceV2).swapBuffers [C01]
+//@ func (*InsertServiceV2).swapBuffers [C01,C02]
 //@   modifies svc.insertCtx, svc.insertCancel, svc.columns, svc.lastSend, svc.size, svc.results
 //@   ensures result0 != nil ==> fresh(result0) && len(result0.cols) >= 1
 //@   check together: result0 != nil ==> result0.cols == columns && result0.res == results && result0.size == size && size != 0
@@ -77,7 +78,7 @@ package service
 // open batch's waiting list in the same critical section.
 //@ func (*InsertServiceV2).Request [C01]
 //@   ensures fresh(result)
-//@ func (*InsertServiceV2).Request$1 [C01]
+//@ func (*InsertServiceV2).Request$1 [C01,C02]
 //@   requires p.pending == 1 && size >= 0
 //@   check queued-or-settled: (p.pending == 0 && p.res == 0 && (err != nil || inserted == 0)) ||
 //@          (p.pending == 1 && err == nil && inserted != 0 && len(svc.results) >= 1 && svc.results[len(svc.results) - 1] == p)
